@@ -218,3 +218,36 @@ def digit_twins(rnd, n, structured=False):
     b = tuple(A + [1, d] + B + [v] + C)
     assert "".join(map(str, a)) == "".join(map(str, b)) and a != b and sorted(a) == list(range(n))
     return a, b
+
+
+def weak_hash_start(ctx, adapter, func, buckets=3):
+    """Start `func` of the adapter in a second interpreter in which the hashes of the library's objects are reduced modulo
+    `buckets` (harness/weakhash.py); weak_hash_finish returns the events it recorded."""
+    import subprocess
+    import sys
+    return subprocess.Popen([sys.executable, "-m", "harness.weakhash", adapter, func, str(ctx.seed), ctx.tier, str(buckets)],
+                            stdout=subprocess.PIPE, stderr=subprocess.PIPE, text=True, cwd=getattr(ctx, "scratch", None) or os.getcwd())
+
+
+def weak_hash_finish(ctx, proc, what):
+    import subprocess
+    try:
+        out, err = proc.communicate(timeout=1500)
+    except subprocess.TimeoutExpired as ex:
+        proc.kill()
+        raise tlc.MachineryFailure("weak-hash interpreter timed out (%s)" % what) from ex
+    if proc.returncode != 0:
+        last = (err.strip().splitlines() or ["?"])
+        # an exception of the library itself in that interpreter is a finding, anything else is the machinery
+        inside = [l for l in last if "/permuta/" in l]
+        if inside and "harness" not in last[-3] if len(last) >= 3 else False:
+            ctx.violation({"kind": "weak-hash interpreter", "what": what}, "NoException", "the calls return", last[-1][:200])
+            return []
+        raise tlc.MachineryFailure("weak-hash interpreter failed (%s): %s" % (what, "\n".join(last[-6:])))
+    doc = json.loads(out)
+    if not doc.get("patched"):
+        raise tlc.MachineryFailure("weak-hash interpreter: no class was given a weak hash")
+    for v in doc["violations"]:
+        ctx.violation({"interpreter": "hashes of patterns reduced modulo a small number", "case": v["case"]}, v["clause"], v["expected"], v["observed"])
+    ctx.note("weak_hash_interpreter_" + what, {"events": len(doc["events"]), "classes": doc["patched"]})
+    return doc["events"]
